@@ -230,6 +230,8 @@ theorem track_frame {s s1 : State} {m x : Nat} (t : TrackPost s s1 m x) (hx : x 
     · by_cases h2 : i = x
       · subst h2; rw [t.gx]; exact ⟨rfl, rfl, rfl⟩
       · rw [t.go i h1 h2]; exact ⟨rfl, rfl, rfl⟩)
+  logx := LogExt.of_eq t.log
+  runsx := RunsX.of_quiet (LogExt.of_eq t.log) t.runs
 
 /-! ## clearSources -/
 
@@ -279,6 +281,41 @@ theorem foldl_erase_obs (id : Nat) : ∀ (l : List Nat) (s : State),
   | [], _ => rfl
   | x :: l, s => by rw [List.foldl_cons, foldl_erase_obs id l]; rfl
 
+theorem noteRun_get (s : State) (id i : Nat) :
+    (noteRun s id).get i =
+      if id = i ∧ i < s.nodes.length then
+        { s.get i with seen := [], runs := (s.get i).runs + 1, running := true }
+      else s.get i := by
+  unfold noteRun
+  simp only [State.emit_get]
+  split
+  · rw [State.get_upd]
+  · rw [State.get_upd]; simp only [State.emit_get, State.emit_nodes]; rfl
+
+theorem noteRun_len (s : State) (id : Nat) : (noteRun s id).nodes.length = s.nodes.length := by
+  unfold noteRun; simp only [State.emit_nodes, State.upd_length]; split <;> rfl
+
+theorem noteRun_log (s : State) (id : Nat) :
+    (noteRun s id).log = s.log ++ ((if justified s id then [] else [Ev.unjust id]) ++ [Ev.ran id]) := by
+  unfold noteRun
+  simp only [State.emit_log, State.upd_log]
+  split <;> simp
+
+theorem countRan_noteRun (s : State) (id i : Nat) :
+    countRan i ((if justified s id then [] else [Ev.unjust id]) ++ [Ev.ran id]) = if id = i then 1 else 0 := by
+  rw [countRan_append]
+  have h1 : countRan i (if justified s id then [] else [Ev.unjust id]) = 0 := by
+    split <;> simp [countRan]
+  rw [h1]
+  by_cases h : id = i
+  · subst h; simp [countRan]
+  · simp only [h, if_false, countRan, Nat.zero_add]
+    rw [List.countP_eq_zero]
+    intro ev hev
+    rw [List.mem_singleton.1 hev]
+    simp only [decide_eq_true_eq]
+    intro hc; cases hc; exact h rfl
+
 /-- the state at the start of a memo run -/
 def startRun (s : State) (id : Nat) : State :=
   let s := s.upd id fun n => { n with val := none }
@@ -292,6 +329,8 @@ structure StartPost (s s4 : State) (m : Nat) : Prop where
   gm : s4.get m = { s.get m with val := none, sources := [], seen := [], runs := (s.get m).runs + 1, running := true }
   go : ∀ i, i ≠ m → s4.get i = { s.get i with subs := (s.get i).subs.erase m }
   log : LogOK s → ((s.get m).runs ≠ 0 → ∃ e ∈ (s.get m).seen, (s.get e.1).ver ≠ e.2.2) → LogOK s4
+  logx : LogExt (fun ev => ev = .unjust m ∨ ev = .ran m) s s4
+  runsx : RunsX s s4
 
 theorem startRun_post {s : State} {m : Nat} (hnd : ∀ i, (s.get i).subs.Nodup)
     (hedge : ∀ i, i ∉ (s.get m).sources → m ∉ (s.get i).subs) (hself : m ∉ (s.get m).sources)
@@ -345,8 +384,17 @@ theorem startRun_post {s : State} {m : Nat} (hnd : ∀ i, (s.get i).subs.Nodup)
     intro i; by_cases hi : i = m
     · subst hi; rw [g3m]
     · rw [g3o i hi]
-  unfold noteRun
-  refine ⟨?_, rfl, ?_, ?_, ?_⟩
+  have hrx : RunsX s ({ noteRun s3 m with obs := some m } : State) := by
+    refine ⟨_, by show (noteRun s3 m).log = _; rw [noteRun_log, log3], fun i => ?_⟩
+    rw [countRan_noteRun]
+    show ((noteRun s3 m).get i).runs = _
+    rw [noteRun_get]
+    by_cases hmi : m = i
+    · subst hmi
+      rw [if_pos ⟨rfl, hm3⟩, if_pos rfl, g3m]
+    · rw [if_neg (fun hc => hmi hc.1), if_neg hmi, g3o i (Ne.symm hmi)]; rfl
+  unfold noteRun at hrx ⊢
+  refine ⟨?_, rfl, ?_, ?_, ?_, ?_, hrx⟩
   · simp only [State.emit_nodes, State.upd_length]
     split <;> simpa using len3
   · simp only [State.setObs_get, State.emit_get]
@@ -377,6 +425,15 @@ theorem startRun_post {s : State} {m : Nat} (hnd : ∀ i, (s.get i).subs.Nodup)
     rcases hi with hi | hi
     · rw [log3] at hi; exact hl i hi
     · cases hi
+  · simp only
+    split
+    · exact ⟨[.ran m], by simp [log3], fun ev hev => by
+        rw [List.mem_singleton.1 hev]; exact .inr rfl⟩
+    · exact ⟨[.unjust m, .ran m], by simp [log3], fun ev hev => by
+        simp only [List.mem_cons, List.not_mem_nil, or_false] at hev
+        rcases hev with h' | h'
+        · exact .inl h'
+        · exact .inr h'⟩
 
 section
 variable {s s4 : State} {m : Nat}
@@ -537,5 +594,10 @@ theorem startRun_frame {p : Prog} {s s4 : State} {m : Nat} (h : InvR p s) (t : S
     by_cases h1 : i = m
     · subst h1; rw [t.gm]; exact ⟨rfl, rfl, rfl⟩
     · rw [t.go i h1]; exact ⟨rfl, rfl, rfl⟩)
+  logx := t.logx.mono (fun ev hev i hi => by
+    rcases hev with h' | h'
+    · rw [h'] at hi; cases hi
+    · rw [h'] at hi; cases hi; exact hkm)
+  runsx := t.runsx
 
 end Leptos.Reactive
